@@ -4,12 +4,14 @@ evaluates the Lean property predicate on the implementation's output. Core-only 
 -/
 import WrglModel.Driver.C11
 import WrglModel.Driver.C04
+import WrglModel.Driver.C06
 open Lean Wrgl.Drv
 
 def dispatch (prop op : String) (input impl : Json) : Except String Json :=
   match prop with
   | "C11" => handleC11 op input impl
   | "C04" => handleC04 op input impl
+  | "C06" => handleC06 op input impl
   | _ => .error s!"unknown property {prop}"
 
 def handleLine (line : String) : Json :=
